@@ -10,7 +10,7 @@ cd "$WT" || exit 2
 echo "== patch"; git diff --stat -- include | tail -2
 echo "== suite with the change"
 cmake -G Ninja -S "$WT" -B "$WT/_b" -DCMAKE_BUILD_TYPE=RelWithDebInfo -DCMAKE_CXX_FLAGS=-Wno-error -DYOMM2_ENABLE_TESTS=ON >/dev/null 2>&1
-cmake --build "$WT/_b" -j8 2>&1 | tail -1
+cmake --build "$WT/_b" -j6 2>&1 | tail -1
 ctest --test-dir "$WT/_b" -j8 2>&1 | grep -E "tests passed|tests failed"
 rm -rf "$WT/_b"
 if [ -f "$WT/demo.sh" ]; then DEMO="bash ./demo.sh"; else
@@ -21,11 +21,11 @@ d=re.split(r'\s{2,}\(|\s+#', d)[0]
 print(d)")
 fi
 echo "== demo with the change: $DEMO"
-( cd "$WT" && bash -c "$DEMO" ) > /tmp/demo_with.txt 2>&1; echo "exit $?"; tail -3 /tmp/demo_with.txt
+( cd "$WT" && bash -c "$DEMO" ) > /tmp/demo_with_$ID.txt 2>&1; echo "exit $?"; tail -3 /tmp/demo_with_$ID.txt
 git diff -- include > /tmp/seed_patch_$ID.diff
 git checkout -- include
 echo "== demo without the change"
-( cd "$WT" && bash -c "$DEMO" ) > /tmp/demo_without.txt 2>&1; echo "exit $?"; tail -2 /tmp/demo_without.txt
+( cd "$WT" && bash -c "$DEMO" ) > /tmp/demo_without_$ID.txt 2>&1; echo "exit $?"; tail -2 /tmp/demo_without_$ID.txt
 git apply /tmp/seed_patch_$ID.diff
 for C in $CHECKS; do
   echo "== check $C against the change"
